@@ -45,6 +45,11 @@ def typestate_nary(chk, prog, sim, name, maxn):
                 a = assign.get(label)
                 if a is None:
                     return None
+                # an input polled again within the same get() may answer differently (it is an external getter): the adversarial
+                # second answer is the opposite presence category, which is what exposes a count taken from an earlier pass
+                k = len([1 for e in st.effects if e[0] == "call" and e[1] == label])
+                if k > 1:
+                    a = {"cat": "N" if a["cat"] == "S" else "S", "tag": a["tag"] + "'" * (k - 1)}
                 ok_ty = ret_ty["args"][0]
                 tt = None
                 if is_adt(ok_ty, "Option"):
@@ -54,10 +59,14 @@ def typestate_nary(chk, prog, sim, name, maxn):
                 return K.build_output(sim_, ret_ty, a["cat"], a["tag"], time=tt)
             old = sim.oracle_hook
             sim.oracle_hook = hook
+            sim.oracle_fresh = True
             st = S.State()
             a0 = sim.make_arg(st, "self", subst(fn["sig_inputs"][0], gargs))
-            leaves = sim.run(fn, gargs, [a0], st)
-            sim.oracle_hook = old
+            try:
+                leaves = sim.run(fn, gargs, [a0], st)
+            finally:
+                sim.oracle_hook = old
+                sim.oracle_fresh = False
             for leaf in leaves:
                 chk.evaluated(1, nontrivial=(key, "".join(pat)))
                 if leaf.kind == "unsupported":
@@ -332,6 +341,31 @@ def signature_rule(chk, prog):
     if n < 8:
         chk.violation("floor", "C16.reference-ctors", "expected >= 8 fns returning Reference, found %d" % n)
         ok = False
+    # ... and no safe fn may hand out MUTABLE access to the payload of an existing Reference: `*r.as_inner_mut() = ReferenceUnsafe::Ptr(p)`
+    # would rebuild a Reference from a raw pointer without any unsafe code
+    def mut_ref_to_payload(t):
+        if t is None:
+            return False
+        k = t.get("k")
+        if k == "ref":
+            return (bool(t.get("mut")) and has_raw_or_refunsafe(t["ty"]) and D.find_ty(t["ty"], "ReferenceUnsafe") is not None) or mut_ref_to_payload(t["ty"])
+        if k in ("ptr", "slice", "array"):
+            return mut_ref_to_payload(t["ty"])
+        if k == "adt":
+            return any(mut_ref_to_payload(a) for a in t["args"] if a.get("k") not in ("region", "const"))
+        if k == "tuple":
+            return any(mut_ref_to_payload(a) for a in t["tys"])
+        return False
+    for f in prog.facts["fns"]:
+        if f.get("kind") not in ("Fn", "AssocFn") or "sig_output" not in f or f.get("unsafe"):
+            continue
+        if not any(D.find_ty(t, "Reference") for t in f["sig_inputs"]):
+            continue
+        chk.evaluated(1, nontrivial=("sig-mut", f["pretty"]))
+        if mut_ref_to_payload(f["sig_output"]):
+            chk.violation("C16.S", "safe-mutable-payload-access:" + f["pretty"], "safe fn %s (%s) returns a mutable reference to the ReferenceUnsafe payload of a Reference (%s): safe code can overwrite it with a raw-pointer variant and obtain a dangling Reference"
+                          % (f["pretty"], loc(f["span"]), f["sig"]), fn=f["pretty"], file=loc(f["span"]))
+            ok = False
     # the payload of Reference must be private, otherwise rule S is moot
     if field_is_public(prog, ("Reference", None, 0)):
         chk.violation("C16.S", "Reference-payload-public", "the ReferenceUnsafe payload of Reference is publicly accessible")
@@ -429,6 +463,7 @@ def run(chk):
     selftest.expect(chk, "C16", inventory, "C16.P", "a safe Deref over a public raw-pointer variant", "Borrow")
     selftest.expect(chk, "C16", inventory, "C16.U", "a raw dereference of a pointer argument in a safe fn", "unjustified:unjustified")
     selftest.expect(chk, "C16", signature_rule, "C16.S", "a safe fn building a Reference from *mut T", "from_raw_safe")
+    selftest.expect(chk, "C16", signature_rule, "C16.S", "a safe fn returning &mut to a Reference's payload", "payload_mut")
     selftest.expect(chk, "C16", macro_unsafe_hygiene, "C16.M", "an exported macro expanding $e:expr inside unsafe", "bad_macro")
     if chk.tier == "thorough":
         for cfg in ("K2", "K3", "K4"):
